@@ -11,20 +11,20 @@ extern void sb_append(StringBuilder *sb, const char *str);
 void generate_math_utility_builtins(StringBuilder *sb) {
     sb_append(sb, "/* ========== Math and Utility Built-in Functions ========== */\n\n");
 
-    /* abs function - works with int and float via macro */
-    sb_append(sb, "#define nl_abs(x) _Generic((x), \\\n");
-    sb_append(sb, "    double: (double)((x) < 0.0 ? -(x) : (x)), \\\n");
-    sb_append(sb, "    default: (int64_t)((x) < 0 ? -(x) : (x)))\n\n");
+    /* abs/min/max work with int and float.  _Generic only selects the helper
+     * (its controlling expression is not evaluated), so every argument is
+     * evaluated exactly once. */
+    sb_append(sb, "static inline int64_t nl_abs_i(int64_t x) { return x < 0 ? -x : x; }\n");
+    sb_append(sb, "static inline double nl_abs_d(double x) { return x < 0.0 ? -x : x; }\n");
+    sb_append(sb, "#define nl_abs(x) _Generic((x), double: nl_abs_d, default: nl_abs_i)(x)\n\n");
 
-    /* min function */
-    sb_append(sb, "#define nl_min(a, b) _Generic((a), \\\n");
-    sb_append(sb, "    double: (double)((a) < (b) ? (a) : (b)), \\\n");
-    sb_append(sb, "    default: (int64_t)((a) < (b) ? (a) : (b)))\n\n");
+    sb_append(sb, "static inline int64_t nl_min_i(int64_t a, int64_t b) { return a < b ? a : b; }\n");
+    sb_append(sb, "static inline double nl_min_d(double a, double b) { return a < b ? a : b; }\n");
+    sb_append(sb, "#define nl_min(a, b) _Generic((a), double: nl_min_d, default: nl_min_i)((a), (b))\n\n");
 
-    /* max function */
-    sb_append(sb, "#define nl_max(a, b) _Generic((a), \\\n");
-    sb_append(sb, "    double: (double)((a) > (b) ? (a) : (b)), \\\n");
-    sb_append(sb, "    default: (int64_t)((a) > (b) ? (a) : (b)))\n\n");
+    sb_append(sb, "static inline int64_t nl_max_i(int64_t a, int64_t b) { return a > b ? a : b; }\n");
+    sb_append(sb, "static inline double nl_max_d(double a, double b) { return a > b ? a : b; }\n");
+    sb_append(sb, "#define nl_max(a, b) _Generic((a), double: nl_max_d, default: nl_max_i)((a), (b))\n\n");
 
     /* Math functions - wrappers around C standard library math.h */
     sb_append(sb, "/* Trigonometric functions */\n");
